@@ -72,3 +72,21 @@ Theorem C17_zerofill_current_clobbers : forall P f A D lo a t,
        = Some (mkent (s_index (r_slot a)) (s_term_ (r_slot a)) (s_type (r_slot a)) (c_pay (r_cell a))).
 Proof. exact zero_fill_current_clobbers. Qed.
 Print Assumptions C17_zerofill_current_clobbers.
+
+(* The clearing write of the WriteSlice variants (before /repo fe68fb6) had its result dropped: when it fails, the
+   Save goes on over the stale slots and reports success. Witness (4 slots per file): entries 1..3, then a Save of
+   a single conflicting entry at index 2 whose clearing write fails: the Save is not reported as failed, the live
+   store answers correctly (nextEntryIdx hides the stale slot), but after reopen the discarded entry 3 is back. The
+   variant of today's tree reports the failure and keeps the log unchanged. *)
+Definition swallow_d := run_disk VRepaired small_params [Save (seg 1 3 1 0 5 7) None None] (empty_disk small_params).
+Definition swallow_es := seg 2 1 2 0 5 900.
+Theorem C17_clear_error_swallowed_refuted :
+  let '(rep, d1) := save_fail VRepaired small_params swallow_es None None FClear swallow_d in
+  rep = false
+  /\ map e_index (a_ents (abs d1)) = [1; 2; 3]
+  /\ map e_index (s_append swallow_es (a_ents (abs swallow_d))) = [1; 2]
+  /\ map e_index (fst (disk_all small_params (reopen small_params d1))) = [1; 2; 3]
+  /\ (let '(rep', d1') := save_fail VZeroSlots small_params swallow_es None None FClear swallow_d in
+      rep' = true /\ abs d1' = abs swallow_d).
+Proof. vm_compute. repeat split. Qed.
+Print Assumptions C17_clear_error_swallowed_refuted.
